@@ -69,7 +69,7 @@ def main(payload):
     return res
 '''
 
-KNOWN = {('carnahan_starling', 'de_drho'), ('aluminum', 'dP_drho'), ('aluminum', 'de_drho')}
+KNOWN = {('carnahan_starling', 'de_drho')}
 
 
 def cases(rng, n):
